@@ -851,12 +851,17 @@ def check_chunked(ck, tree, RP="C01"):
     R = RP + ".chunk-terminator"
     # terminator reads: in the reader itself, or in a helper method of the same class that the reader awaits
     # (a refactoring into `await self._expect_crlf()` is decided inside the helper)
-    sites = [(fi, n, c) for n, c in call_sites(fi, ".read_bytes") if q.kwarg(c, "partial") is None and len(c.args) == 1]
+    def is_term_read(c):
+        # a fixed-size read (protocol bytes, not body data): constant size
+        a0 = q.arg(c, 0, "num_bytes")
+        return isinstance(a0, ast.Constant)
+
+    sites = [(fi, n, c) for n, c in call_sites(fi, ".read_bytes") if is_term_read(c)]
     helper_calls = 0
     for hc in q.calls(fi.node):
         h = resolve_call(repo, fi, hc)
         if h is not None and h is not fi and h.file == H1 and h.name not in ("_read_chunked_body", "_read_fixed_body", "_read_body_until_close"):
-            hs = [(h, n, c) for n, c in call_sites(h, ".read_bytes") if q.kwarg(c, "partial") is None and len(c.args) == 1]
+            hs = [(h, n, c) for n, c in call_sites(h, ".read_bytes") if is_term_read(c)]
             if hs:
                 helper_calls += 1
                 ck.use(h)
@@ -868,7 +873,9 @@ def check_chunked(ck, tree, RP="C01"):
             continue
         seen_sites.add((hf.qualname, node.id))
         hcfg = hf.cfg
-        ck.ob(R, hf, c, q.is_const(c.args[0], 2), "the terminator read takes exactly 2 bytes")
+        ck.ob(R, hf, c, q.is_const(q.arg(c, 0, "num_bytes"), 2), "the terminator read takes exactly 2 bytes")
+        pk = q.kwarg(c, "partial") or (c.args[1] if len(c.args) > 1 else None)
+        ck.ob(R, hf, c, pk is None or q.is_const(pk, False), "the terminator is read completely (a partial read may return one byte and mis-frame the stream)")
         if not (isinstance(node.ast, ast.Assign) and isinstance(node.ast.targets[0], ast.Name)):
             ck.ob(R, hf, c, False, "the terminator bytes are kept for comparison with CRLF")
             continue
@@ -896,7 +903,7 @@ def check_counted_reads(ck, fi, length_sources, RP="C01"):
     R = RP + ".body-byte-count"
     cfg = fi.cfg
     pm = q.parent_map(fi.node)
-    reads = [(n, c) for n, c in call_sites(fi, ".read_bytes") if q.kwarg(c, "partial") is not None]
+    reads = [(n, c) for n, c in call_sites(fi, ".read_bytes") if not isinstance(q.arg(c, 0, "num_bytes"), ast.Constant)]
     ck.floor(R, len(reads), 1, "partial data reads in %s" % fi.qualname)
     for node, c in reads:
         st = node.ast
@@ -1117,20 +1124,41 @@ def check_400(ck, RP="C01"):
         other = [n for n in cfg.stmt_nodes(lambda n: n.kind == "stmt" and isinstance(n.ast, ast.Return) and not in_h(n)) if n.id in r3]
         ck.ob(R, fi, h, not other, "the handler never falls through to the success return", construct="except HTTPInputError: fall-through")
 
-    R = RP + ".loop-stops"
+    check_serving_loop(ck, RP + ".loop-stops")
+
+
+def check_serving_loop(ck, R):
+    """_server_request_loop (helpers inlined), by abstract interpretation over the possible outcomes of one
+    read_response(): another request is read iff the previous one returned a truthy value."""
+    from ..x_absint import Evaluator, Obj, UNK, Raised
     lp = _F(ck, H1, "HTTP1ServerConnection._server_request_loop")
-    lcfg = lp.cfg
-    rr = [(n, c) for n, c in call_sites(lp, ".read_response")]
-    ck.floor(R, len(rr), 1, "read_response calls in the serving loop")
-    for node, c in rr:
-        if not (isinstance(node.ast, ast.Assign) and isinstance(node.ast.targets[0], ast.Name)):
-            ck.ob(R, lp, c, False, "the result of read_response decides whether the loop continues")
-            continue
-        rv = node.ast.targets[0].id
-        cont = atom_edges(lcfg, lambda a: True if (isinstance(a, ast.Name) and a.id == rv) else None)
-        heads = [n for n in lcfg.nodes if n.kind == "join" and n.label == " while"]
-        again = reach_without(lcfg, cont, start=node.id, follow_exc=True)
-        ck.ob(R, lp, c, bool(heads) and not any(h.id in again for h in heads), "another request is read only if the previous message ended cleanly (truthy result); every exception ends the loop")
+    ps = [p for p in lp.params() if p != "self"]
+    n = 0
+    for mode in (True, False, None, "iostream.StreamClosedError", "iostream.UnsatisfiableReadError", "_QuietException", "ValueError"):
+        def fb(st, c, d, args, mode=mode):
+            if q.call_attr(c) == "read_response":
+                if isinstance(mode, str):
+                    raise Raised(mode)
+                return mode
+            return NotImplemented
+
+        ev = Evaluator()
+        ev.fallback = fb
+        ev.handler_names = lambda h: handler_class_names(lp, h)
+        me = Obj("self", stream=Obj("stream"), params=Obj("params"), context=None)
+        outs = ev.run(lp.node, dict({"self": me}, **{p: Obj("delegate") for p in ps}))
+        if not outs:
+            raise AnalysisError("_server_request_loop: no outcome for read_response -> %r" % (mode,))
+        for o in outs:
+            n += 1
+            reads = sum(1 for e in o.state.events if q.call_attr(e[2]) == "read_response")
+            if reads == 0:
+                raise AnalysisError("_server_request_loop: read_response not reached on an evaluated path")
+            if mode is True:
+                ck.ob(R, lp, lp.node, reads >= 2, "after a message that ended cleanly (truthy result) the loop reads the next request", construct="read_response -> True: next request read")
+            else:
+                ck.ob(R, lp, lp.node, reads == 1, "after %s no further request is read on this connection" % ("a falsy result" if not isinstance(mode, str) else mode), construct="read_response -> %r: loop ends" % (mode,))
+    ck.floor(R, n, 7, "evaluated serving-loop outcomes")
 
 
 def check_stream_api(ck, RP="C01"):
@@ -1268,6 +1296,8 @@ def check_wire_exact(ck, tree, RP="C01"):
 
 
 def run(ck):
+    from ..x_http import GuardedCheck
+    ck = GuardedCheck(ck)
     ck.rule("C01.header-block-delimiter", "the header block is read up to the first blank line: the read_until_regex delimiter denotes (CR? LF){2}")
     ck.rule("C01.request-line", "parse_request_start_line accepts exactly token SP target SP HTTP/1.x by fullmatch and raises HTTPInputError otherwise")
     ck.rule("C01.header-name", "HTTPHeaders.add stores only names that fullmatch RFC 9110 token; others raise HTTPInputError")
